@@ -407,15 +407,34 @@ def chain(node, var):
 
 
 def site_tables(fi, var):
+    """site class -> rows of its period chain: the if/elif chain on site_class is FOLLOWED for each class (a test `== 'C'` holds for C,
+    a test `!= 'C'` for the others), so the table a class really gets is the one reported for it"""
+    tops = [n for n in ast.walk(fi.node) if isinstance(n, ast.If) and isinstance(n.test, ast.Compare) and isinstance(n.test.left, ast.Name) and
+            n.test.left.id == "site_class" and isinstance(n.test.comparators[0], ast.Constant) and len(n.test.ops) == 1 and
+            isinstance(n.test.ops[0], (ast.Eq, ast.NotEq))]
+    inner_ifs = {id(x) for n in tops for x in ast.walk(n) if x is not n}
+    roots = [n for n in tops if id(n) not in inner_ifs]
     out = {}
-    for n in ast.walk(fi.node):
-        if isinstance(n, ast.If) and isinstance(n.test, ast.Compare) and isinstance(n.test.left, ast.Name) and n.test.left.id == "site_class" \
-                and isinstance(n.test.comparators[0], ast.Constant):
-            inner = [x for x in n.body if isinstance(x, ast.If)]
+    classes = {n.test.comparators[0].value for n in tops} | {"C", "D", "E"}
+    for cls in sorted(classes, key=repr):
+        for root in roots:
+            node = root
+            body = None
+            while True:
+                holds = (node.test.comparators[0].value == cls) == isinstance(node.test.ops[0], ast.Eq)
+                if holds:
+                    body = node.body
+                    break
+                if len(node.orelse) == 1 and isinstance(node.orelse[0], ast.If) and node.orelse[0] in tops:
+                    node = node.orelse[0]
+                else:
+                    body = node.orelse
+                    break
+            inner = [x for x in (body or []) if isinstance(x, ast.If)]
             if len(inner) == 1:
                 rows = chain(inner[0], var)
                 if rows is not None:
-                    out[n.test.comparators[0].value] = rows
+                    out[cls] = rows
     return out
 
 
@@ -440,6 +459,26 @@ def nzs_rules(chk):
     c = "eqsig/design_spectra.py"
     chk.ob("R-NZS-SIB", c + ":c_h_factor~sd_nzs{classes}", "both functions tabulate site classes C, D, E", set(tch) == set(tsd) == {"C", "D", "E"},
            derived="%s vs %s" % (sorted(tch), sorted(tsd)), loc=ch.loc())
+    # the domain guard: a negative period is rejected, T = 0 and every positive period are served
+    for fi_, var_ in ((ch, "tt"), (sd, "period")):
+        gs = [n for n in ast.walk(fi_.node) if isinstance(n, ast.If) and isinstance(n.test, ast.Compare) and len(n.test.ops) == 1 and
+              isinstance(n.test.left, ast.Name) and n.test.left.id == var_ and isinstance(n.test.comparators[0], ast.Constant) and
+              any(isinstance(x, ast.Raise) for x in n.body)]
+        for g in gs[:1]:
+            okg = isinstance(g.test.ops[0], ast.Lt) and g.test.comparators[0].value == 0
+            chk.ob("R-NZS-SIB", "%s:%s{domain guard}" % (c, fi_.name), "exactly the negative periods are rejected (T < 0)", okg,
+                   derived="rejects %s" % " ".join(ast.unparse(g.test).split()), loc=fi_.loc(g), stmt=norm_stmt(g.test))
+    # scalar in, scalar out; sequence in, array of the same length out
+    r_ = analyse(chk, DS + "c_h_factor", lambda I, st, fi: dict(period=AV(kind=K_ARRAY, dtype="real", shape=(LinExpr("P"),), sign=S_NONNEG,
+                                                                          origin=frozenset(["p:period"]), tags=frozenset(["p:period"])),
+                                                                  site_class=const_av("C")))
+    expect(chk, "R-NZS-SIB", c + ":c_h_factor(array of periods)", r_.ret, kind=K_ARRAY, shape=("P",), loc=ch.loc())
+    te_ = [e for e in r_.I.events if e.kind == "type-error"]
+    chk.ob("R-NZS-SIB", c + ":c_h_factor(array of periods){types}", "no ill-typed call on the way", not te_, derived="; ".join("%s %s" % (e.loc, e.what) for e in te_[:2])
+           or "none", loc=te_[0].loc if te_ else ch.loc())
+    r_ = analyse(chk, DS + "c_h_factor", lambda I, st, fi: dict(period=AV(kind=K_SCALAR, dtype="real", shape=(), sign=S_NONNEG, origin=frozenset(["lit"]),
+                                                                          tags=frozenset(["p:period"]), note="pyscalar"), site_class=const_av("C")))
+    expect(chk, "R-NZS-SIB", c + ":c_h_factor(one float period)", r_.ret, kind=K_SCALAR, loc=ch.loc())
     T2 = Poly.atom("T") * Poly.atom("T")
     ren = lambda a: re.sub(r"\b(tt|period)\b", "T", a)
     for cls in sorted(set(tch) & set(tsd)):
@@ -486,12 +525,16 @@ def nzs_rules(chk):
         dep = dep if dep is not None else set()          # names whose value depends on the class (assigned inside the chain)
         for st in stmts:
             if isinstance(st, ast.If) and isinstance(st.test, ast.Compare) and isinstance(st.test.left, ast.Name) and st.test.left.id == "site_class" \
-                    and len(st.test.ops) == 1 and isinstance(st.test.ops[0], ast.Eq) and isinstance(st.test.comparators[0], ast.Constant):
-                if st.test.comparators[0].value == cls:
+                    and len(st.test.ops) == 1 and isinstance(st.test.ops[0], (ast.Eq, ast.NotEq)) and isinstance(st.test.comparators[0], ast.Constant):
+                holds = (st.test.comparators[0].value == cls) == isinstance(st.test.ops[0], ast.Eq)     # the test as it evaluates for this class
+                if holds:
                     anchor[0] = st
                     specialise(st.body, cls, env, anchor, True, dep)
                 else:
                     specialise(st.orelse, cls, env, anchor, inchain, dep)
+            elif isinstance(st, ast.Raise):
+                env["__raises__"] = True
+                return
             elif isinstance(st, ast.Assign) and len(st.targets) == 1 and isinstance(st.targets[0], ast.Name):
                 class Sub(ast.NodeTransformer):
                     def visit_Name(self, n_):
@@ -501,11 +544,43 @@ def nzs_rules(chk):
                 if inchain:
                     dep.add(st.targets[0].id)
                 env[st.targets[0].id] = Sub().visit(copy.deepcopy(st.value))
-    for cls in classes:
+    chain_found = bool(classes)
+    envs = {}
+    for cls in sorted(set(classes) | ({"C", "D", "E"} if chain_found else set())):
         env_, anchor = {}, [te.node]
         specialise(te.node.body, cls, env_, anchor)
-        if "t_c" in env_ and "d_c" in env_:
+        envs[cls] = env_
+        if "t_c" in env_ and "d_c" in env_ and not (env_.get("__raises__") and "time" not in env_ and False):
             per_cls[cls] = (env_["t_c"], env_["d_c"], anchor[0])
+    if chain_found:
+        for cls in ("C", "D", "E"):
+            chk.ob("R-NZS-SIB", c + ":t_eff{class %s handled}" % cls, "site class %s reaches its own corner constants (the tests on site_class select it)" % cls,
+                   cls in per_cls, derived="constants found" if cls in per_cls else "for site_class = %r the chain assigns no (t_c, d_c)" % cls, loc=te.loc())
+        # gravity: the literal 9.81
+        gv = [n.value for n in ast.walk(te.node) if isinstance(n, ast.Assign) and len(n.targets) == 1 and isinstance(n.targets[0], ast.Name) and
+              n.targets[0].id == "gravity"]
+        if gv:
+            chk.ob("R-NZS-SIB", c + ":t_eff{gravity}", "gravity = 9.81", len(gv) == 1 and isinstance(gv[0], ast.Constant) and gv[0].value == 9.81,
+                   derived=ast.unparse(gv[0]), loc=te.loc())
+        # the inversion itself: T = t_c * d / d_c below the corner displacement, an error above it
+        rets_ = [n for n in ast.walk(te.node) if isinstance(n, ast.Return) and n.value is not None]
+        if len(rets_) == 1:
+            nm_ = straightline_env([n for n in ast.walk(te.node) if isinstance(n, ast.Assign)], Normaliser(), exclude={"t_c", "d_c", "gravity"} | set(te.params))
+            pt = nm_.poly(rets_[0].value)
+            chk.ob("R-NZS-SIB", c + ":t_eff{inversion}", "T_eff = t_c * displacement / d_c", pt == Poly.atom("t_c") * Poly.atom("displacement") * Poly.atom("d_c").inverse(),
+                   derived=pt.canon(), loc=te.loc(rets_[0]))
+        guards = [n for n in ast.walk(te.node) if isinstance(n, ast.If) and isinstance(n.test, ast.Compare) and len(n.test.ops) == 1 and
+                  {x.id for x in ast.walk(n.test) if isinstance(x, ast.Name)} == {"displacement", "d_c"}]
+        if len(guards) == 1:
+            g = guards[0]
+            l_, r_ = ast.unparse(g.test.left), ast.unparse(g.test.comparators[0])
+            op_ = type(g.test.ops[0]).__name__
+            if l_ == "d_c":
+                op_ = {"Lt": "Gt", "Gt": "Lt", "LtE": "GtE", "GtE": "LtE"}.get(op_, op_)
+            raising = "body" if any(isinstance(x, ast.Raise) for x in g.body) else ("orelse" if any(isinstance(x, ast.Raise) for x in g.orelse) else None)
+            okg = (op_ == "Gt" and raising == "body") or (op_ == "LtE" and raising == "orelse")
+            chk.ob("R-NZS-SIB", c + ":t_eff{corner guard}", "only a displacement strictly above the corner displacement is rejected (d = d_c gives T = t_c)", okg,
+                   derived="displacement %s d_c raises on the %s branch" % (op_, raising), loc=te.loc(g), stmt=norm_stmt(g.test))
     if not per_cls:
         once = {}
         for n in ast.walk(te.node):
@@ -538,5 +613,7 @@ def nzs_rules(chk):
             tc = tcv.value if isinstance(tcv, ast.Constant) else None
             lastbp = [v for op, v, _ in tch[cls] if v is not None][-1]
             chk.ob("R-NZS-SIB", c + ":t_eff{class %s}" % cls, "corner constant = last-interval coefficient; corner period = last breakpoint",
-                   dcoef * 4 == coef and tc == lastbp and dcp.degree_of("pi") == -2 and dcp.degree_of("gravity") == 1,
+                   dcoef * 4 == coef and tc == lastbp and dcp.degree_of("pi") == -2 and dcp.degree_of("gravity") == 1 and
+                   dcp == Poly.const(dcoef) * Poly.atom("z_factor") * Poly.atom("r_factor") * Poly.atom("n_factor") * Poly.atom("gravity") *
+                   Poly.atom("pi").power(-2),
                    derived="d_c coefficient %s (*4 = %s) vs %s; t_c %s vs %s" % (dcoef, dcoef * 4, coef, tc, lastbp), loc=te.loc(node))
